@@ -10,7 +10,6 @@ import (
 	"fmt"
 	"net/url"
 
-	"github.com/trustbloc/sidetree-go/pkg/document"
 	"github.com/trustbloc/sidetree-go/pkg/patch"
 )
 
@@ -36,12 +35,10 @@ func (v *AlsoKnownAsValidator) Validate(p patch.Patch) error {
 		return fmt.Errorf("%s", err)
 	}
 
-	_, err = getRequiredArray(value)
+	uris, err := getRequiredStringArray(value)
 	if err != nil {
 		return fmt.Errorf("%s: %w", action, err)
 	}
-
-	uris := document.StringArray(value)
 
 	if err := validate(uris); err != nil {
 		return fmt.Errorf("%s: validate URIs: %w", action, err)
